@@ -4,10 +4,9 @@ import CookModel.Lemmas.RecipeInline
   What `find_inline_quantity` (src/analysis/event_consumer.rs:1341) FINDS — a specification that does not
   go through the finder.
 
-  * `FsCand` / `IsCand`: the lexical candidate grammar, stated declaratively on the text (no converter, no
-    number type): `skipped number gap unit after`.
-  * `fsNextCand`: the candidate at a scan position as a function; `fs_nextCand_sound` (it satisfies the
-    grammar) and `fs_nextCand_complete` (the grammar has at most this one solution).
+  * `FsCand`, `fsNextCand`: the lexical candidate `skipped number gap unit after` at a scan position, a function
+    of the text and the character table alone (no converter, no number type); `fs_nextCand_split`: it splits the
+    text.  (A declarative grammar predicate with `fsNextCand` sound and complete for it is NOT done.)
   * `FsFinds`: the scan as a relation on the text: the FIRST candidate of the candidate sequence whose number
     reads and whose unit word the converter knows; a candidate that fails is skipped WHOLE (the scan goes on
     after its unit word — `1 2 g` offers `1 2` and then nothing: `2 g` is never a candidate).
@@ -393,46 +392,5 @@ theorem fs_find_none_iff (env : Env) (hd : DigitsNotWs env.cs) (fuel : Nat) (pre
     cases hf : findInlineQuantity (α := α) env fuel pre rest with
     | none => rfl
     | some h' => rw [hf] at hs; exact absurd a (fs_finds_not_nothing env _ rest h' hs)
-
-/-! ### the candidate grammar, declaratively -/
-
-/-- **the candidate grammar of `find_inline_quantity`**, on the text from the scan position:
-    * `skipped` holds no ASCII digit and the number starts with the first ASCII digit of the text;
-    * the word at that digit is the maximal run without white space (`char::is_whitespace`);
-    * GLUED (`2kg`, `1.5x`): the word has a character that is no ASCII digit and no `.`: the number is the word up
-      to the first such character, the unit word is the rest of the word, there is no gap;
-    * SPACED (`2 kg`): the word is ASCII digits and `.` only and is the number; the gap is the maximal run of white
-      space after it (not empty) and the unit word is the next maximal run without white space (not empty);
-    * TRAILING: the word is digits and `.` only, and only white space (at least one) follows to the end of the
-      text: gap and unit word are empty;
-    * a number word that ends the text is no candidate.
-    A sign is not part of the candidate (`fsHit` looks at the character before the number). -/
-def IsCand (cs : CharSpec) (rest : Str) (c : FsCand) : Prop :=
-  rest = c.skipped ++ c.number ++ c.gap ++ c.unit ++ c.after ∧
-  c.skipped.all (fun x => !isAsciiDigitC x) = true ∧
-  (∃ d t, c.number = d :: t ∧ isAsciiDigitC d = true) ∧
-  c.number.all (fun x => (isAsciiDigitC x || x == '.') && !cs.uws x) = true ∧
-  c.unit.all (fun x => !cs.uws x) = true ∧
-  (∀ x, c.after.head? = some x → cs.uws x = true) ∧
-  ((c.gap = [] ∧ ∃ x t, c.unit = x :: t ∧ isAsciiDigitC x = false ∧ x ≠ '.') ∨
-   (c.gap ≠ [] ∧ c.gap.all cs.uws = true ∧ c.unit ≠ []) ∨
-   (c.gap = [] ∧ c.unit = [] ∧ c.after ≠ [] ∧ c.after.all cs.uws = true))
-
-theorem fs_dropWhile_head' {β : Type} (p : β → Bool) (l : List β) :
-    ∀ x, (l.dropWhile p).head? = some x → p x = false := by
-  intro x h
-  cases hd : l.dropWhile p with
-  | nil => rw [hd] at h; cases h
-  | cons a t =>
-    rw [hd] at h
-    simp only [List.head?_cons, Option.some.injEq] at h
-    subst h
-    exact inlineScan_dropWhile_head p l _ _ hd
-
-theorem fs_findIdx_none {β : Type} (q : β → Bool) (l : List β) (h : l.findIdx? q = none) :
-    ∀ x ∈ l, q x = false := by
-  intro x hx
-  have := List.findIdx?_eq_none_iff.mp h x hx
-  simpa using this
 
 end Cook
